@@ -88,7 +88,7 @@ func verifC02(c *drv.Ctx) {
 	targets := c02targets(c.Thorough())
 	c.R.Rule = fmt.Sprintf("(i) %d target strings (IPv4, IPv4 CIDR /0../32, malformed quads, every ::/n, 2001:db8::/n, ::ffff:10.0.1.0/n and fe80::/n for n in the stated range, mapped/zone/bracket forms, garbage) x %d commands, run end-to-end; "+
 		"strict IPv4 reference decides validity: valid => every probe destination lies in the denoted set (runs capped for sets larger than /20: only the parser is compared); not IPv4 => error, zero probes, no crash; "+
-		"(ii) target /28 x every exclusion file of <= 3 lines (quick: 2 for the cross product) over a 16-symbol line alphabet (incl. a host, a /30 and a /29 that share the target's base address: narrower-before-broader nesting): probed set = target minus the union of the valid exclusion lines, a file with an invalid line is refused; "+
+		"(ii) target /28 x every exclusion file of <= 3 lines (quick: 2 for the cross product) over a 16-symbol line alphabet (incl. a host, a /30 and a /29 that share the target's base address: narrower-before-broader nesting): probed set = target minus the union of the valid exclusion lines, a file with an invalid line is refused (or, if tolerated, its valid lines still hold); the IP-level commands also with --gwmac; "+
 		"(iii) address/pair files with destinations spelled as 4-byte and 16-byte (::ffff:) addresses against exclusions; (iv) `arp --live` with three exclusion files: every pass leaves the excluded addresses alone and covers the others; non-trivial = run that put at least one probe on the wire or was refused", len(targets), len(cmds))
 	idx := 0
 	// (i) target strings
@@ -183,7 +183,7 @@ func verifC02(c *drv.Ctx) {
 	tbase, tones, _ := zzref.RefTarget("10.0.1.16/28")
 	tnet := zzref.RefNet{Base: tbase, Ones: tones}
 	var rec func(cur []int)
-	run1 := func(cur []int, cmd c01cmd) {
+	run1 := func(cur []int, cmd c01cmd, extra ...string) {
 		idx++
 		if !c.Mine(idx) || c.Expired() {
 			return
@@ -212,7 +212,7 @@ func verifC02(c *drv.Ctx) {
 			}
 			excl = append(excl, zzref.RefNet{Base: b, Ones: o})
 		}
-		sc := &vE2ESpec{Args: append(append([]string{}, cmd.args...), "--json", "--exclude", "{DIR}/ex.txt", "10.0.1.16/28"),
+		sc := &vE2ESpec{Args: append(append(append([]string{}, cmd.args...), extra...), "--json", "--exclude", "{DIR}/ex.txt", "10.0.1.16/28"),
 			Files: map[string]string{"ex.txt": strings.Join(content, "\n") + "\n"}, Positive: func(string, uint16) bool { return false }}
 		if cmd.kind != "arp" && cmd.kind != "app" {
 			sc.Stdin = vGatewayCache
@@ -221,9 +221,9 @@ func verifC02(c *drv.Ctx) {
 		c.Eval(1)
 		c.Nontrivial(1)
 		c.R.Transitions += int64(x.Steps)
-		desc := fmt.Sprintf("%s 10.0.1.16/28 --exclude %q", cmd.name, trimLong(content))
+		desc := fmt.Sprintf("%s %s10.0.1.16/28 --exclude %q", cmd.name, strings.Join(append(extra, ""), " "), trimLong(content))
 		rep := map[string]any{"part": "c02", "exclude_lines": trimLong(content), "command": cmd.name}
-		key := func(class string) string { return fmt.Sprintf("exclude:%s:%v", class, c02lineKey(cur, lines)) }
+		key := func(class string) string { return fmt.Sprintf("exclude:%s:%v%s", class, c02lineKey(cur, lines), strings.Join(extra, "")) }
 		if _, err := vBasic(x); err != nil {
 			c.Fail(key("crash"), desc+": "+err.Error(), rep)
 			return
@@ -243,8 +243,22 @@ func verifC02(c *drv.Ctx) {
 			return
 		}
 		if invalid {
+			// a line that is not an IPv4 entry was tolerated (the command went on): what THAT line should exclude
+			// is not defined, but the addresses the valid lines cover must still be left alone
 			c.Outcome("excl:invalid-line-tolerated")
-			return // a line that is not an IPv4 entry was tolerated: what it should exclude is not defined
+			got := map[uint32]int{}
+			for _, d := range dests {
+				got[d]++
+			}
+			for i := uint32(0); i < uint32(tnet.Size()); i++ {
+				for _, n := range excl {
+					if n.Contains(tbase+i) && got[tbase+i] > 0 {
+						c.Fail(key("excluded-probed-despite-error"), fmt.Sprintf("%s: the exclusion file has a line that cannot be read, the command went on all the same, and %s - covered by a valid line - was probed", desc, zzref.RefIPString(tbase+i)), rep)
+						return
+					}
+				}
+			}
+			return
 		}
 		got := map[uint32]int{}
 		for _, d := range dests {
@@ -281,6 +295,10 @@ func verifC02(c *drv.Ctx) {
 					break
 				}
 				run1(cur, cmd)
+				if cmd.kind != "arp" && cmd.kind != "app" && len(cur) <= 2 {
+					// the same with the rarely used --gwmac: option parsing of the IP-level scans has two stages
+					run1(cur, cmd, "--gwmac", "02:00:00:00:00:fd")
+				}
 			}
 		}
 		if len(cur) == maxLen {
